@@ -139,6 +139,10 @@ def gen_batch(rng, trx, roadm_of):
             r2_ = deepcopy(r)
             r2_['request-id'] = f'q{i}'
             r2_['path-constraints']['te-bandwidth']['path_bandwidth'] = G.pick(rng, [100e9, 200e9])
+            if rng.random() < 0.25:
+                # same request except for the direction flag: not identical, each keeps its own response (and the
+                # bidirectional one its reverse-direction figures)
+                r2_['bidirectional'] = not r2_['bidirectional']
             reqs.append(r2_)
             kinds[r2_['request-id']] = 'duplicate'
             i += 1
@@ -158,7 +162,9 @@ def gen_batch(rng, trx, roadm_of):
 def agg_key(r):
     te = r['path-constraints']['te-bandwidth']
     route = r.get('explicit-route-objects', {}).get('route-object-include-exclude', [])
-    return (r['source'], r['destination'], te['trx_type'], te['trx_mode'], te['spacing'], te.get('output-power'),
+    # "identical requests": every field of the request, the direction flag included
+    return (r['source'], r['destination'], bool(r.get('bidirectional')), te['trx_type'], te['trx_mode'], te['spacing'],
+            te.get('output-power'),
             te.get('max-nb-of-channel'), te.get('tx_power'),
             tuple((o['num-unnum-hop']['node-id'], o['num-unnum-hop']['hop-type']) for o in route))
 
